@@ -371,8 +371,12 @@ fn exec(case: &[Tok]) -> Vec<Tok> {
     let content = case[2].bytes();
     let pos = case[3].u();
     assert!((case.len() - 4) % 2 == 0);
-    if (kind == 0 || kind == 1) && pos as usize > content.len() {
+    if (kind == 0 || kind == 1) && pos > content.len() as u64 {
         panic!("slice offset beyond the array");
+    }
+    // perturbed cases (shrinker / neighbourhood search): never seek a real file to an absurd offset
+    if kind == 5 && (pos > 65536 || case[4..].chunks(2).any(|op| op[0].u() == 4 && op[1].l()[0] > 65536)) {
+        panic!("file offset out of the supported range");
     }
     let mut a = Stream::new(kind, &content, pos, true);
     let mut t = Some(Stream::new(kind, &content, pos, false));
